@@ -86,6 +86,23 @@ def gen_cfgs(ctx, n):
         it = ['f1'] * cfg.accum + ['s']
         cfg.ops = it + ['h:0'] + it + ['v1', 'l11'] + it * 2
         cfgs.append(cfg)
+    # directed: the initial checkpoint (step boundary 0, no factor yet) loaded with the default compute_inverses=True on
+    # several ranks under every strategy — a valid state is never rejected, nothing is communicated for data that does not exist
+    for world, k in ((2, 2), (2, 1), (4, 2), (4, 4)):
+        cfg = kfacsim.Config(rng, world=world, k=k, colocate=True)
+        cfg.hyper_changes = []
+        it = ['f1'] * cfg.accum + ['s']
+        cfg.ops = ['l11'] + it * 2 + ['v1']
+        cfgs.append(cfg)
+    # directed: a learning rate of exactly 0 (constructor argument, or annealed to 0 by a scheduler) is a valid state
+    for world in (1, 2):
+        cfg = kfacsim.Config(rng, world=world)
+        cfg.hyper['lr'] = Fraction(0)
+        cfg.hyper['kl_clip'] = Fraction(1, 100)
+        cfg.hyper_changes = []
+        it = ['f1'] * cfg.accum + ['s']
+        cfg.ops = it + ['l11'] + it * 2
+        cfgs.append(cfg)
     # directed: a state kept in memory (not copied) while several factor updates go by, then rolled back to
     for world in (1, 2, 4):
         cfg = kfacsim.Config(rng, world=world)
